@@ -346,6 +346,14 @@ def gen_scenario(seed, force_cfg=None, profile=None, drive=None):
         scn["distinctProtos"] = True
     if r2.random() < 0.2:
         scn["rebuild"] = True
+    if r2.random() < 0.15:
+        # the documented defaults are used where a scenario does not care: range 60, speed 10, reference (0, 0, 0)
+        scn["useDefaults"] = True
+        if "defaultRange" not in (force_cfg or {}):
+            cfg["defaultRange"] = fbits(60.0)
+        cfg["defaultSpeed"] = fbits(10.0)
+        if not prof["w"].get("gotoGeo") if "w" in prof else True:
+            cfg["refGeo"] = [fbits(0.0), fbits(0.0), fbits(0.0)]
     if r2.random() < 0.25:
         scn["dispatcher"] = {"when": r2.choice(["initialize", "initialize", "timer", "telemetry"]),
                              "oneShot": r2.random() < 0.5}
